@@ -162,6 +162,46 @@ def st_case(draw):
     return {"what": "load", "t": t, "datum": datum, "ops": ops, "strict": strict, "debug": dbg, "provs": provs}
 
 
+def _aba_pool():
+    """(type spec, strict, A, B): A is accepted by MORE THAN ONE case of the union, B only by a case that is not the first to accept A
+    in at least one of the listed name orders; load A, load B, load A again -- "repeating a call with equal arguments gives equal
+    results", whatever was loaded in between."""
+    def m(name, names):
+        return ["model", {"name": name, "kind": "dataclass", "fields": [{"n": n, "t": ["int"], "d": None} for n in names]}]
+    d = lambda **kw: {"$": "d", "v": [[k, v] for k, v in kw.items()]}  # noqa: E731
+    out = []
+    for big, small in (("M0", "M1"), ("M1", "M0")):
+        out.append((["union", [m(big, ["a", "b"]), m(small, ["a"])], "typing"], True, d(a=1, b=2), d(a=1)))
+        out.append((["union", [m(big, ["a", "b"]), m(small, ["b"])], "typing"], False, d(a=1, b=2), d(b=5)))
+    out += [
+        (["union", [["int"], ["str"]], "typing"], False, "1", "x"),
+        (["union", [["float"], ["str"]], "typing"], False, "1.5", "x"),
+        (["union", [["int"], ["float"]], "typing"], False, 1.5, "1.5"),
+        (["union", [["bool"], ["str"]], "typing"], False, "a", ""),
+        (["union", [["date"], ["datetime"]], "typing"], True, "2024-05-01", "2024-05-01T10:00:00"),
+        (["union", [["list", ["int"], "typing"], ["tuple", [["int"], ["int"]], "typing"]], "typing"], True, [1, 2], [1, 2, 3]),
+        (["union", [["dict", ["str"], ["int"], "typing"], m("M0", ["a"])], "typing"], True, d(a=1), d(b=1)),
+        (["union", [["decimal"], ["str"]], "typing"], True, "1.5", "x"),
+        (["union", [["int"], ["decimal"], ["str"]], "typing"], False, "7", "7.5"),
+    ]
+    return out
+
+
+ABA_POOL = _aba_pool()
+
+
+@st.composite
+def st_case_aba(draw):
+    t, strict, a, b = draw(st.sampled_from(ABA_POOL))
+    wrap = draw(st.sampled_from(["bare", "bare", "list", "dict"]))
+    if wrap == "list":
+        t, a, b = ["list", t, "typing"], [a, a], [b]
+    elif wrap == "dict":
+        t, a, b = ["dict", ["str"], t, "typing"], {"$": "d", "v": [["k", a]]}, {"$": "d", "v": [["k", b], ["j", b]]}
+    return {"what": "load", "t": t, "datum": a, "between": [b] * draw(st.integers(1, 3)), "ops": ["aba", wrap], "strict": strict,
+            "debug": draw(st.integers(0, 2)), "provs": []}
+
+
 def n_mutable_typed(spec):
     return sum(1 for s in tspec.walk(spec) if s[0] in ("list", "dict", "set", "deque", "defaultdict", "mutablemapping",
                                                        "mapping", "model", "bytearray") or
@@ -174,6 +214,8 @@ def check_case(ctx: runner.Ctx, case):  # noqa: C901
         return check_extras(ctx, case)
     if what == "convert":
         return check_convert(ctx, case)
+    if what == "default_size":
+        return check_default_size(ctx, case)
     t = case["t"]
     hint, e = tspec.build_type(t)
     retort = Retort(recipe=build_provs(case.get("provs") or []) + build_recipe(case.get("recipe") or [], e),
@@ -218,6 +260,19 @@ def check_case(ctx: runner.Ctx, case):  # noqa: C901
     if outs[0][0] == "err":
         return None
     r1, r2 = outs[0][1], outs[1][1]
+    if what == "load" and case.get("between"):
+        for spec in case["between"]:
+            try:
+                fn(codec.build(spec, e))
+            except Exception:  # noqa: BLE001, S110
+                pass
+        try:
+            r3 = ("ok", fn(arg))
+        except Exception as ex:  # noqa: BLE001
+            r3 = ("err", ex)
+        if r3[0] != "ok" or not tspec.canon_eq(r1, r3[1]):
+            ctx.violation("repeat_result_differs_after_other_calls", (t[0], case["ops"][-1] if case.get("ops") else "-"), case,
+                          f"{head}: first {r1!r}; after loading {case['between']!r} the same loader gives {r3!r}")
     same = tspec.dumped_eq(t, r1, r2, e) if what == "dump" else tspec.canon_eq(r1, r2)
     if not same and not one_shot:
         ctx.violation("repeat_result_differs", (what, t[0]), case, f"{head}: first {r1!r}, second {r2!r}")
@@ -435,7 +490,75 @@ DEFAULTDICT_PROBE = {
 }
 
 
+# ----------------------------------------------------------------- mutable default VALUES: sharing must not depend on their size
+DEFAULT_SIZES = [0, 1, 3, 16, 31, 32, 33, 40, 64, 100, 257, 1000]
+DEFAULT_SHAPES = ["list", "set", "dict", "list_in_tuple", "list_of_lists"]
+DEFAULT_KINDS = ["namedtuple", "attrs", "plain_init"]
+
+
+def default_size_cases():
+    for shape in DEFAULT_SHAPES:
+        for kind in DEFAULT_KINDS:
+            for dbg in (0, 1, 2):
+                yield {"what": "default_size", "shape": shape, "kind": kind, "debug": dbg}
+
+
+def _default_of(shape, n):
+    if shape == "list":
+        return list(range(n))
+    if shape == "set":
+        return set(range(n))
+    if shape == "dict":
+        return {str(i): i for i in range(n)}
+    if shape == "list_in_tuple":
+        return (1, list(range(n)))
+    return [list(range(n)), [1]]
+
+
+def check_default_size(ctx, case):
+    """A mutable container given as a plain default VALUE (not a factory) of a field that the input omits.  Whether two loads may return
+    the very same object is the model's business for Python (the class shares it too) -- but the answer cannot depend on how many
+    elements the container has: adaptix either rebuilds such defaults per load or hands the declared object over."""
+    import attr  # noqa: PLC0415
+    answers = {}
+    for n in DEFAULT_SIZES:
+        dv = _default_of(case["shape"], n)
+        if case["kind"] == "namedtuple":
+            cls = typing.NamedTuple("DSz", [("a", int), ("x", typing.Any)])
+            cls.__new__.__defaults__ = (dv,)
+            cls._field_defaults = {"x": dv}
+        elif case["kind"] == "attrs":
+            cls = attr.make_class("DSz", {"a": attr.ib(type=int), "x": attr.ib(type=typing.Any, default=dv)})
+        else:
+            def __init__(self, a: int, x: typing.Any = dv):  # noqa: N807
+                self.a, self.x = a, x
+            cls = type("DSz", (), {"__init__": __init__})
+        retort = Retort(debug_trail=DEBUG[case["debug"]])
+        try:
+            r1, r2 = retort.load({"a": 1}, cls), retort.load({"a": 1}, cls)
+        except Exception as ex:  # noqa: BLE001
+            ctx.violation("default_size_load_failed", (case["shape"], case["kind"], type(ex).__name__), case,
+                          f"{case} n={n}: load raised {describe(ex)}")
+            return
+        x1, x2 = r1.x, r2.x
+        if x1 != dv or x2 != dv:
+            ctx.violation("default_size_value_wrong", (case["shape"], case["kind"]), case, f"{case} n={n}: loaded {x1!r}, declared {dv!r}")
+            return
+        inner1 = x1[1] if case["shape"] == "list_in_tuple" else x1
+        inner2 = x2[1] if case["shape"] == "list_in_tuple" else x2
+        answers[n] = (inner1 is inner2, inner1 is (dv[1] if case["shape"] == "list_in_tuple" else dv))
+    ctx.case(["default_size", case], True, sample={**case, "shared_between_loads_by_size": {str(k): v[0] for k, v in answers.items()}},
+             labels=["what:default_size", f"shape:{case['shape']}"])
+    if len(set(answers.values())) > 1:
+        ctx.violation("default_sharing_depends_on_size", (case["shape"], case["kind"]), case,
+                      f"{case}: (two loads return the same object, it is the declared default object) by number of elements: {answers}")
+
+
 def explore(ctx: runner.Ctx):
+    for i, c in enumerate(default_size_cases()):
+        if i % ctx.nshards == ctx.shard:
+            runner.guarded(ctx, lambda k: check_case(ctx, k), c)
+    ctx.given(st_case_aba(), lambda c: check_case(ctx, c), ctx.budget(400, 20000), seed_offset=3)
     if ctx.shard == 0:
         # open known finding C20-defaultdict-input-mutated: probed by one fixed case, never generated (the generated mappings
         # are dicts and harness-defined mapping classes without a default factory)
@@ -449,7 +572,7 @@ RULE = ("cases = load (near-valid dump, 0-1 mutations) / dump (canonical value) 
 
 if __name__ == "__main__":
     raise SystemExit(runner.main(
-        PROP, explore=explore, check_case=check_case, strategy=st_case(), rule=RULE,
+        PROP, explore=explore, check_case=check_case, strategy=st.one_of(st_case(), st_case_aba()), rule=RULE,
         assumptions=["sub-objects below Any/object positions are passed as is (documented) and excluded from the alias scan",
                      "converter: same-type fields are passed as is (documented); only element-wise coerced containers and "
                      "model instances must be fresh",
